@@ -321,7 +321,8 @@ class Resource(AbstractResource):
         *,
         expect_handler: _ExpectHandler | None = None,
     ) -> "ResourceRoute":
-        if route := self._routes.get(method, self._any_route):
+        # routes are keyed by the upper-cased method (AbstractRoute.__init__)
+        if route := self._routes.get(method.upper(), self._any_route):
             raise RuntimeError(
                 "Added route will never be executed, "
                 f"method {route.method} is already "
